@@ -62,6 +62,27 @@ def build_harness(ctx):
     return exe
 
 
+def build_dag2any(ctx, exe):
+    """the converter binary of the current tree (src/profiler/dag2any/dag2any.c), linked with the profiler objects
+    the harness was built from; None when the tree has no such source"""
+    src = os.path.join(prof_dir(), "dag2any", "dag2any.c")
+    if not os.path.exists(src):
+        return None
+    d = os.path.dirname(exe)
+    out = os.path.join(d, "dag2any")
+    with vlib.Lock("c19-d2a-" + os.path.basename(d)):
+        if os.path.exists(out):
+            return out
+        cfg = vlib.ensure_config_h()
+        objs = [os.path.join(d, x.replace(".c", ".o")) for x in PROF_SRCS]
+        has_sql = bool(re.search(r"^#define HAVE_SQLITE3_H 1", open(os.path.join(cfg, "config.h")).read(), re.M))
+        flags = ["-w", "-O0", "-g", "-DMYTH_VERIF", "-DDAG_RECORDER=2", "-I" + cfg, "-I" + prof_dir(),
+                 "-I" + os.path.join(prof_dir(), "dag2any")]
+        vlib.cc(out + ".tmp", [src] + objs, flags=flags, libs=["-lpthread"] + (["-lsqlite3"] if has_sql else []))
+        os.rename(out + ".tmp", out)
+    return out
+
+
 def build(ctx):
     exe = build_harness(ctx)
     drv = vlib.build_driver("C19", "Extract_C19.v", "driver_C19.ml", VF)
@@ -683,6 +704,7 @@ class ProgGen:
     def __init__(self, r, nw, nf, depth, fan, budget):
         self.r, self.nw, self.nf, self.depth, self.fan, self.budget = r, nw, nf, depth, fan, budget
         self.zero = r.chance(1, 6)        # a run with many zero-length intervals
+        self.nesty = r.chance(1, 3)       # many nested sections (tg1.run; tg2.run; tg2.wait; tg1.wait)
 
     def W(self):
         return self.r.below(self.nw)
@@ -727,6 +749,8 @@ class ProgGen:
             if self.budget <= 0:
                 break
             y = self.r.below(10)
+            if self.nesty and nest < 3 and y >= 5:
+                y = 9
             if y < 6 and depth > 0:
                 kind = "C"
                 self.budget -= 1
@@ -734,7 +758,7 @@ class ProgGen:
             elif y < 8:
                 kind = "O"
                 it = self.other()
-            elif nest < 2:
+            elif nest < (3 if self.nesty else 2):
                 kind = "S"
                 it = self.section(depth, nest + 1)
             else:
@@ -749,13 +773,20 @@ class ProgGen:
         return ["S", b] + items + ["W", self.D()] + self.FL() + [self.D(), self.W()] + self.FL()
 
 
-def gen_case(r, cid, thorough, hexlim=40):
+def gen_case(r, cid, thorough, hexlim=40, keep=0, force=None, before_cleanup=False, wsa_force=None):
+    """one profiling session.  [force]: values shared with the previous session of a history that is not
+    cleaned up in between (workers, worker-state mode, record-time options, chk)"""
     nw = r.rng(1, 8)
     nf = r.choice([1, 1, 2, 3, 5, 8, 13, 50, r.rng(1, 50)])
     depth = r.choice([0, 1, 2, 2, 3, 3, 4, 5])
     fan = r.choice([0, 1, 2, 2, 3, 3, 4, 5, 6])
     budget = r.choice([6, 20, 50, 100, 200, 300] + ([600, 1200] if thorough else []))
+    wsa = 0 if r.chance(1, 5) else 1          # 0: worker states in the linear list + pthread key
+    if wsa_force is not None:
+        wsa = wsa_force
     names = gen_names(r, nf)
+    if force:
+        nw = force["nw"]
     prog = ProgGen(r, nw, nf, depth, fan, budget).task(depth, root=True)
     fam = r.choice(["none", "none", "default", "span", "span", "count", "count", "target", "target"])
     umin, cmax, nct, pth, cmc = 0, 0, 0, 100000, 0
@@ -765,11 +796,11 @@ def gen_case(r, cid, thorough, hexlim=40):
         umin = r.choice([0, 0, 0, 1, 5, 20, 60])
         cmax = r.choice([0, 3, 10, 30, 100, 400, 1 << 60])
     elif fam == "count":
-        cmc = r.choice([1, 2, 3, 4, 5, 8, 13, 30])
+        cmc = r.choice([1, 2, 3, 4, 5, 8, 13, 30, 40])
     elif fam == "target":
         nct = r.choice([1, 2, 5, 10, 20, 50])
         pth = r.choice([0, 1, 3, 8, 20, 60])
-    cfam = r.choice(["none", "all", "span", "span", "count", "count"])
+    cfam = r.choice(["none", "all", "span", "span", "count", "count", "count"])
     c_umin, c_cmax, c_cmc = 0, 0, 0
     if cfam == "all":
         c_umin, c_cmax = (1 << 62), (1 << 62)
@@ -777,7 +808,7 @@ def gen_case(r, cid, thorough, hexlim=40):
         c_umin = r.choice([0, 0, 1, 5, 20, 60, 200])
         c_cmax = r.choice([0, 3, 10, 30, 100, 400, 1 << 60])
     elif cfam == "count":
-        c_cmc = r.choice([1, 2, 3, 5, 8, 13, 30, 100])
+        c_cmc = r.choice([1, 2, 3, 5, 8, 13, 30, 40, 100])
         c_umin, c_cmax = (1 << 62), (1 << 62)        # so that only the count test decides
     sc = r.choice([1, 1000, 123456789, (1 << 40) + 7, r.rng(1, 1 << 20)])
     # chk_level=1 turns the recorder's dr_check()s into aborts.  Not when a multi-worker subgraph can be
@@ -785,19 +816,46 @@ def gen_case(r, cid, thorough, hexlim=40):
     # dr_check_min_node_count (see notes/C19.md), which is about the recorder's min_node_count bookkeeping
     # (C18), not about the dag file.
     chk = r.below(2) if (fam != "count" and umin == 0) else 0
-    line = "case %d hex %d nw %d sc %d chk %d rec %d %d %d %d %d conv %d %d %d files %d %s prog %s" % (
-        cid, hexlim, nw, sc, chk, umin, cmax, nct, pth, cmc, c_umin, c_cmax, c_cmc, nf, " ".join(names),
+    if before_cleanup and wsa == 0:
+        # dr_cleanup() with chk_level >= 1 aborts when the worker states are kept in the linear list
+        # (dr_free_worker_specific_state_array checks array_sz != 0 unconditionally; notes/C19.md, candidate defects)
+        chk = 0
+    if force:
+        wsa, chk, fam = force["wsa"], force["chk"], force["fam"]
+        umin, cmax, nct, pth, cmc = force["rec"]
+    line = "case %d hex %d keep %d nw %d sc %d chk %d wsa %d rec %d %d %d %d %d conv %d %d %d files %d %s prog %s" % (
+        cid, hexlim, keep, nw, sc, chk, wsa, umin, cmax, nct, pth, cmc, c_umin, c_cmax, c_cmc, nf, " ".join(names),
         " ".join(map(str, prog)))
     meta = {"id": cid, "workers": nw, "files": nf, "depth": depth, "fan": fan, "rec": fam, "conv": cfam,
-            "tokens": len(prog), "chk": chk}
+            "tokens": len(prog), "chk": chk, "wsa": wsa, "nested_sections": prog.count("S") - 0,
+            "force": {"nw": nw, "wsa": wsa, "chk": chk, "fam": fam, "rec": (umin, cmax, nct, pth, cmc)}}
     return line, meta
+
+
+def gen_history(r, cid, thorough, keep_first=0):
+    """2-3 profiling sessions recorded by ONE process: start/stop/dump[/cleanup]/start/...  Returns
+    (harness input line, [(cid, session line)], [meta])"""
+    k = r.rng(2, 3)
+    cleanup = 1 if r.chance(3, 4) else 0
+    mode = r.choice([None, None, 0, 0, 1])       # worker-state mode of the sessions: mixed / all list+key / all array
+    sessions, metas, force = [], [], None
+    for j in range(k):
+        line, meta = gen_case(r, cid + j, thorough, keep=(keep_first if j == k - 1 else 0), force=(force if not cleanup else None),
+                              before_cleanup=bool(cleanup), wsa_force=mode)
+        if force is None:
+            force = meta["force"]
+        meta["history"] = "%d sessions, %s" % (k, "dr_cleanup between" if cleanup else "no cleanup between")
+        sessions.append((cid + j, line))
+        metas.append(meta)
+    hline = "history h%d %d %d ;; %s" % (cid, k, cleanup, " ;; ".join(l for _, l in sessions))
+    return hline, sessions, metas
 
 
 # ----------------------------------------------------------------------------------------------
 # running
 # ----------------------------------------------------------------------------------------------
 
-def run_harness(ctx, exe, lines, timeout=900):
+def run_harness(ctx, exe, lines, timeout=900, keep_dir=False):
     rd = os.path.join(ctx.dir, "run")
     shutil.rmtree(rd, ignore_errors=True)
     os.makedirs(rd, exist_ok=True)
@@ -808,8 +866,19 @@ def run_harness(ctx, exe, lines, timeout=900):
     except subprocess.TimeoutExpired as e:
         out = (e.stdout or b"").decode("utf-8", "replace") if isinstance(e.stdout, bytes) else (e.stdout or "")
         err = "[timeout]"
-    shutil.rmtree(rd, ignore_errors=True)
-    return split_blocks(out), err
+    if not keep_dir:
+        shutil.rmtree(rd, ignore_errors=True)
+    blocks = split_blocks(out)
+    # a history whose recording process died: its sessions that did not get through carry the crash
+    for ln in lines:
+        w = ln.split(None, 2)
+        if w and w[0] == "history" and blocks.get(w[1], {}).get("crash"):
+            ids = [x.split()[1] for x in ln.split(";;")[1:]]
+            for sid in ids:
+                b = blocks.setdefault(sid, {"lines": [], "crash": None, "complete": False})
+                if not b["complete"] and not b["crash"]:
+                    b["crash"] = blocks[w[1]]["crash"] + "  (the process recording the history died in or before this session)"
+    return blocks, err
 
 
 def split_blocks(out):
@@ -1116,6 +1185,26 @@ def validate_replay(D, lines, sfx):
     return None
 
 
+F_LEC0, F_NCHILD = 34, 41
+
+
+def edge_totals(D):
+    """per-kind edge totals as gen_stat.c dr_calc_edges books them (summed over the worker matrix): the logical
+    edge counts of the contracted nodes, for a contracted section also the end edges of the tasks created in it,
+    plus the materialised edges"""
+    tot = [0] * 5
+    for i, x in enumerate(D.T):
+        if x[F_KIND] >= K_SECTION and x[F_OA] == x[F_OB]:
+            for k in range(5):
+                tot[k] += x[F_LEC0 + k]
+            if x[F_KIND] == K_SECTION:
+                tot[0] += x[F_NCHILD]
+    for k, u, v in D.E:
+        if 0 <= k < 5:
+            tot[k] += 1
+    return tot
+
+
 def leaf_t1(D):
     return sum(D.T[i][F_T1] for i in range(D.n) if D.is_leaf(i))
 
@@ -1205,8 +1294,127 @@ def oracle(case_line, blk, L):
         return "shrunk dag: the sum of t_1 over the leaves is %d, t_1 of the root is %d" % (leaf_t1(D2), D2.T[0][F_T1])
     if (D2.sc, D2.nw) != (D1.sc, D1.nw):
         return "shrunk dag: start clock / workers changed"
+    # shrinking preserves the edge totals of every kind (what the .stat reports: contracted counts + materialised edges)
+    e1, e2, e3 = edge_totals(D1), edge_totals(D2), edge_totals(D3)
+    names_k = ("end", "create", "create_cont", "wait_cont", "other_cont")
+    for k in range(5):
+        if not (e1[k] == e2[k] == e3[k]):
+            return "edge totals of kind %s: dumped dag %d, shrunk dag %d, shrunk dag after dump/read %d" % (names_k[k], e1[k], e2[k], e3[k])
     return None
 
+
+
+# ----------------------------------------------------------------------------------------------
+# dag2any: the converter binary run on the files of the run, every output format validated structurally
+# ----------------------------------------------------------------------------------------------
+
+KIND_STR = ["create_task", "wait_tasks", "other", "end_task", "section", "task"]
+EKIND_STR = ["end", "create", "create_cont", "wait_cont", "other_cont"]
+
+
+def run_dag2any(d2a, exe, rd, cid, case_line, blk, L):
+    """runs dag2any on c<cid>.dag for all formats and once more with --shrink; returns a message or None"""
+    path = os.path.join(rd, "c%d.dag" % cid)
+    if not os.path.exists(path):
+        return "dag2any: the dumped file of the session is missing"
+    D1, D2 = Dag(blk["lines"], ""), Dag(blk["lines"], "2")
+    pre = os.path.join(rd, "x%d" % cid)
+    rc, out = vlib.sh([d2a, "--stat", "--dot", "--parallelism", "--text", "--sqlite", "-o", pre, path], timeout=120)
+    if rc != 0:
+        return "dag2any (--stat --dot --parallelism --text --sqlite) exits with %d: %s" % (rc, out[-200:])
+    for ext in (".stat", ".dot", ".gpl", ".txt"):
+        if not os.path.exists(pre + ext) or os.path.getsize(pre + ext) == 0:
+            return "dag2any: output %s missing or empty" % ext
+    # text
+    tl = open(pre + ".txt", errors="replace").read().split("\n")
+    if tl[0] != "%d|%d|%d" % (D1.n, D1.m, D1.sn):
+        return "dag2any --text: header `%s`, the dag has %d nodes, %d edges, %d strings" % (tl[0], D1.n, D1.m, D1.sn)
+    if len([x for x in tl if x]) != 1 + D1.n + D1.m + D1.sn:
+        return "dag2any --text: %d lines for %d nodes + %d edges + %d strings" % (len([x for x in tl if x]) - 1, D1.n, D1.m, D1.sn)
+    for i in range(D1.n):
+        w = tl[1 + i].split("|")
+        x = D1.T[i]
+        exp = [str(i), KIND_STR[x[F_KIND]], EKIND_STR[x[F_INEDGE]] if 0 <= x[F_INEDGE] < 5 else "?", str(x[F_START_T])]
+        if w[:4] != exp or w[-4:] != [str(x[F_START_FIDX]), str(x[F_START_LINE]), str(x[F_END_FIDX]), str(x[F_END_LINE])]:
+            return "dag2any --text: node line %d is `%s...`, the dag says %s" % (i, "|".join(w[:4]), "|".join(exp))
+    for j in range(D1.m):
+        k, u, v = D1.E[j]
+        if tl[1 + D1.n + j] != "%d|%d|%d|%s" % (j, u, v, EKIND_STR[k]):
+            return "dag2any --text: edge line %d is `%s`" % (j, tl[1 + D1.n + j])
+    for k in range(D1.sn):
+        if tl[1 + D1.n + D1.m + k] != "%d|%s" % (k, bytes.fromhex(D1.names[k][1:]).decode("latin1")):
+            return "dag2any --text: string line %d is `%s`" % (k, tl[1 + D1.n + D1.m + k])
+    # dot
+    dt = open(pre + ".dot", errors="replace").read()
+    if not dt.startswith("digraph G {") or not dt.rstrip().endswith("}"):
+        return "dag2any --dot: not a digraph"
+    nodes = re.findall(r"^T(\d+) \[", dt, re.M)
+    edges = re.findall(r"^T(\d+) -> T(\d+) \[", dt, re.M)
+    leaves = [i for i in range(D1.n) if D1.is_leaf(i)]
+    if [int(x) for x in nodes] != leaves:
+        return "dag2any --dot: %d node statements, the dag has %d leaves" % (len(nodes), len(leaves))
+    if [(int(a), int(b)) for a, b in edges] != [(u, v) for _k, u, v in D1.E]:
+        return "dag2any --dot: the edge statements are not the edges of the dag (%d vs %d)" % (len(edges), D1.m)
+    # gnuplot
+    gp = open(pre + ".gpl", errors="replace").read()
+    if "plot" not in gp or "pause -1" not in gp:
+        return "dag2any --parallelism: no plot command in the .gpl file"
+    pts = [l.split() for l in gp.split("\n") if re.match(r"^\d+ [\d.eE+-]+ [\d.eE+-]+$", l)]
+    if not pts:
+        return "dag2any --parallelism: no data points"
+    # stat
+    st = open(pre + ".stat", errors="replace").read()
+    kv = dict((m.group(1).strip(), m.group(2)) for m in re.finditer(r"^([A-Za-z_() 0-9/+]+?)\s*=\s*(\S+)$", st, re.M))
+    root = D1.T[0]
+    exp = {"create_task": root[30], "wait_tasks": root[31], "end_task": root[33], "work (T1)": root[F_T1],
+           "critical_path (T_inf)": root[22], "n_workers (P)": D1.nw, "materialized nodes": root[39]}
+    for k, v in exp.items():
+        if kv.get(k) != str(v):
+            return "dag2any --stat: `%s = %s`, the root of the dag says %d" % (k, kv.get(k), v)
+    tot = edge_totals(D1)
+    secs = re.split(r"^(end-parent|create-child|create-cont|wait-cont|other-cont) edges:\n", st, flags=re.M)
+    got = {}
+    for i in range(1, len(secs) - 1, 2):
+        rows = [r_ for r_ in secs[i + 1].split("\n") if re.match(r"^( \d+)+$", r_)][:D1.nw + 1]
+        got[secs[i]] = sum(int(x) for r_ in rows for x in r_.split())
+    for k, nm in enumerate(("end-parent", "create-child", "create-cont", "wait-cont", "other-cont")):
+        if got.get(nm) != tot[k]:
+            return "dag2any --stat: %s edges sum to %s in the report, the dag has %d" % (nm, got.get(nm), tot[k])
+    # sqlite
+    if os.path.exists(pre + ".sqlite"):
+        import sqlite3
+        try:
+            con = sqlite3.connect(pre + ".sqlite")
+            cnt = {t: con.execute("select count(*) from %s" % t).fetchone()[0] for t in ("nodes", "edges", "strings")}
+            con.close()
+        except sqlite3.Error as e:
+            return "dag2any --sqlite: the database cannot be read (%s)" % e
+        if (cnt["nodes"], cnt["edges"], cnt["strings"]) != (D1.n, D1.m, D1.sn):
+            return "dag2any --sqlite: %s rows, the dag has %d nodes, %d edges, %d strings" % (cnt, D1.n, D1.m, D1.sn)
+        sq = "checked"
+    else:
+        if re.search(r"sqlite3 feature is disabled", out):
+            sq = "disabled in this build"
+        else:
+            return "dag2any --sqlite: no database written"
+    # --shrink under the conversion options of the case: the written dag must be the shrunk dag of the library call
+    w = case_line.split()
+    ci = w.index("conv")
+    pre2 = os.path.join(rd, "y%d" % cid)
+    env = dict(os.environ, DR_UNCOLLAPSE_MIN=w[ci + 1], DR_COLLAPSE_MAX=w[ci + 2], DR_COLLAPSE_MAX_COUNT=w[ci + 3])
+    for v in ("DAG_RECORDER_UNCOLLAPSE_MIN", "DAG_RECORDER_COLLAPSE_MAX", "DAG_RECORDER_COLLAPSE_MAX_COUNT"):
+        env.pop(v, None)
+    if int(w[ci + 1]) >= (1 << 63) or int(w[ci + 2]) >= (1 << 63):
+        return None
+    rc, out = vlib.sh([d2a, "--shrink", "--nosqlite", "-o", pre2, path], timeout=120, env=env)
+    if rc != 0 or not os.path.exists(pre2 + ".dag"):
+        return "dag2any --shrink exits with %d / writes no dag: %s" % (rc, out[-200:])
+    rc, out = vlib.sh([exe, "--print", pre2 + ".dag", "3", "0", "0"], timeout=60)
+    got3 = [l for l in out.split("\n") if l.split(" ", 1)[0] in ("G3", "N3", "E3", "S3")]
+    d = first_diff(dag_lines(blk["lines"], "3"), got3)
+    if d:
+        return "dag2any --shrink: the dag it writes differs from dr_copy_pi_dag + dump of the library (line %d: %s  vs  %s)" % (d[0], d[1][:100], d[2][:100])
+    return None
 
 # ----------------------------------------------------------------------------------------------
 # the check
@@ -1225,17 +1433,29 @@ def renumber(line, cid):
     return " ".join(w)
 
 
-def evaluate(ctx, exe, drv, layout_line, L, cases, with_model=True):
-    """cases: list of (id, line).  returns (failing, diffs, stats)"""
-    blocks, err = run_harness(ctx, exe, [c for _, c in cases])
+def evaluate(ctx, exe, drv, layout_line, L, cases, with_model=True, inputs=None, hist=None, d2a=None):
+    """cases: list of (id, session line); inputs: the harness input lines (histories wrap several sessions; default:
+    one process per session); hist: {id: history line}.  returns (failing, diffs, stats)"""
+    hist = hist or {}
+    blocks, err = run_harness(ctx, exe, inputs if inputs is not None else [c for _, c in cases], keep_dir=True)
+    rd = os.path.join(ctx.dir, "run")
     failing, diffs = [], []
     sizes = {"n<=10": 0, "n<=50": 0, "n<=200": 0, "n>200": 0}
-    shrunk, edges_total, leaves_total = 0, 0, 0
+    shrunk, edges_total, d2a_runs = 0, 0, 0
     for cid, cl in cases:
         b = blocks.get(str(cid))
         msg = oracle(cl, b, L)
+        if msg and cid in hist:
+            k = [x.split()[1] for x in hist[cid].split(";;")[1:]].index(str(cid)) + 1
+            msg = "session %d of a multi-session history (one process): %s" % (k, msg)
+        if not msg and d2a and " keep 1 " in cl:
+            d2a_runs += 1
+            try:
+                msg = run_dag2any(d2a, exe, rd, cid, cl, b, L)
+            except (ValueError, IndexError, KeyError, OSError) as e:
+                msg = "dag2any: output could not be validated (%r)" % (e,)
         if msg:
-            failing.append((cid, cl, msg, (b or {}).get("lines", [])[:0]))
+            failing.append((cid, cl, msg, hist.get(cid)))
             continue
         g = tagged(b["lines"], "G")[0].split()
         n = int(g[1])
@@ -1243,7 +1463,9 @@ def evaluate(ctx, exe, drv, layout_line, L, cases, with_model=True):
         edges_total += int(g[2])
         if int(tagged(b["lines"], "G2")[0].split()[1]) < n:
             shrunk += 1
-    stats = {"sizes": sizes, "edges_total": edges_total, "cases_where_conversion_shrinks": shrunk}
+    shutil.rmtree(rd, ignore_errors=True)
+    stats = {"sizes": sizes, "edges_total": edges_total, "cases_where_conversion_shrinks": shrunk,
+             "dag2any_runs (all formats + --shrink)": d2a_runs}
     if with_model:
         mblocks, lw, derr = run_driver(drv, driver_input(layout_line, cases, blocks))
         stats["layout_wf_extracted"] = lw
@@ -1261,6 +1483,25 @@ def evaluate(ctx, exe, drv, layout_line, L, cases, with_model=True):
     return failing, diffs, stats
 
 
+def gen_inputs(rng, cid, n, thorough, with_keep=True):
+    """n generated sessions, about a third of them inside multi-session histories"""
+    cases, metas, inputs, hist = [], [], [], {}
+    made = 0
+    while made < n:
+        keep = 1 if (with_keep and made % 7 == 0) else 0
+        if rng.chance(1, 6):
+            hline, sess, ms = gen_history(rng, cid, thorough, keep_first=keep)
+            inputs.append(hline)
+            for (c, l), m in zip(sess, ms):
+                cases.append((c, l)); metas.append(m); hist[c] = hline
+            cid += len(sess); made += len(sess)
+        else:
+            line, meta = gen_case(rng, cid, thorough, keep=keep)
+            cases.append((cid, line)); metas.append(meta); inputs.append(line)
+            cid += 1; made += 1
+    return cases, metas, inputs, hist, cid
+
+
 def run(ctx):
     broken, log = ctx.prove("Properties_C19.v", "Properties_C19")
     exe, drv = build(ctx)
@@ -1268,19 +1509,25 @@ def run(ctx):
     L = parse_layout(layout_line)
     gen_ok, gen_log = gen_layout_v(ctx, L)
     int_ok, int_msgs, int_log = gen_intern_v(ctx)
+    d2a, d2a_note = None, "src/profiler/dag2any/dag2any.c is not in the tree"
+    try:
+        d2a = build_dag2any(ctx, exe)
+        if d2a:
+            d2a_note = "built from the current tree and run on every 7th session"
+    except vlib.BuildError as e:
+        d2a_note = "does not build: " + str(e)[-300:]
     n = 170 if not ctx.thorough else 2500
-    cases, metas = [], []
+    cases, metas, inputs, hist = [], [], [], {}
     cid = 0
     for c in corpus_cases():
         cases.append((cid, renumber(c, cid)))
+        inputs.append(renumber(c, cid))
         metas.append({"id": cid, "rec": "corpus", "conv": "corpus"})
         cid += 1
-    for _ in range(n):
-        line, meta = gen_case(ctx.rng, cid, ctx.thorough)
-        cases.append((cid, line))
-        metas.append(meta)
-        cid += 1
-    failing, diffs, stats = evaluate(ctx, exe, drv, layout_line, L, cases)
+    gc, gm, gi, gh, cid = gen_inputs(ctx.rng, cid, n, ctx.thorough)
+    cases += gc; metas += gm; inputs += gi; hist.update(gh)
+    failing, diffs, stats = evaluate(ctx, exe, drv, layout_line, L, cases, inputs=inputs, hist=hist, d2a=d2a)
+    stats["dag2any"] = d2a_note
     dist = {}
     for m in metas:
         for k in ("rec", "conv"):
@@ -1290,10 +1537,16 @@ def run(ctx):
             fb = "files:1" if m["files"] == 1 else "files:2-9" if m["files"] < 10 else "files:10-50"
             dist[fb] = dist.get(fb, 0) + 1
             dist["depth:%d" % m["depth"]] = dist.get("depth:%d" % m["depth"], 0) + 1
+            dist["worker_state:%s" % ("array" if m.get("wsa", 1) else "list+key")] = dist.get("worker_state:%s" % ("array" if m.get("wsa", 1) else "list+key"), 0) + 1
+            dist["history:%s" % m.get("history", "single session")] = dist.get("history:%s" % m.get("history", "single session"), 0) + 1
+            if m.get("nested_sections", 0) >= 3:
+                dist["programs_with_3+_sections"] = dist.get("programs_with_3+_sections", 0) + 1
     ctx.cov["correspondence"] = {"cases": len(cases), "disagreements": len(diffs), "oracle_failures": len(failing),
                                  "input_distribution": dist, "result_distribution": stats,
                                  "compared_per_case": "every field of every node, every edge, string table (dump/read and shrunk dag), "
-                                                      "event sequence of both replays, file bytes (n<=40) through the model reader and writer",
+                                                      "event sequence of both replays, file bytes (n<=40) through the model reader and writer; per-kind edge totals "
+                                                      "dumped / shrunk / re-read; sessions of multi-session histories judged like single sessions; "
+                                                      "dag2any outputs (stat, dot, gpl, text, sqlite, --shrink) validated structurally",
                                  "layout_regenerated": {"node": L["node"]["size"], "edge": L["edge"]["size"],
                                                         "strtab": L["strtab"]["size"], "wf_and_roundtrip_instance_checked": gen_ok}}
     ctx.cov["samples"] += [{"case": cases[i][1][:600]} for i in (0, len(cases) // 2, len(cases) - 1)]
@@ -1301,6 +1554,10 @@ def run(ctx):
         "extraction: ExtrOcamlBasic only; ocaml/driver_C19.ml, ocaml/zio.ml",
         "harness/c19_dump.c: serial simulator of the dr_* API with explicit worker ids and the virtual clock hook "
         "(g_dr_verif_clock); its own walker prints the recorded in-memory tree; the file is re-read by a fresh process image",
+        "multi-session histories: one harness process records 2-3 sessions (array or list+pthread-key worker states, with / "
+        "without dr_cleanup between); in list mode the single harness thread is worker 0",
+        "dag2any built by this check from src/profiler/dag2any/dag2any.c + the profiler objects (-lsqlite3 when config.h has it); "
+        "its outputs are validated by Python text / sqlite3 parsing",
         "layout probe (sizeof/offsetof/signedness printed by harness/c19_dump --layout) and the generated build/C19/gen/DrLayout.v",
         "interning translator in tools/props/c19.py (gcc -E -P of dr_dump.c, C-subset statement parser, classification of the "
         "conditions guarding each found exit of dr_string_table_find; copy statements of _append / _flatten) and build/C19/gen/DrIntern.v",
@@ -1331,10 +1588,12 @@ def run(ctx):
 
 def report(ctx, failing, diffs, broken, log, gen_ok, gen_log, exe, drv, layout_line, L, int_ok=True, int_msgs=(), int_log=""):
     if failing:
-        cid, cl, msg, _ = failing[0]
-        ctx.violation("oracle", msg, {"case": cl, "observed": msg, "expected": "see property C19", "level": "library",
-                                      "all_failing": [(c, m) for c, _, m, _ in failing[:20]],
-                                      "model_disagreements": len(diffs)}, found=True)
+        cid, cl, msg, hl = failing[0]
+        body = {"case": cl, "observed": msg, "expected": "see property C19", "level": "library",
+                "all_failing": [(c, m) for c, _, m, _ in failing[:20]], "model_disagreements": len(diffs)}
+        if hl:
+            body["history"] = hl
+        ctx.violation("oracle", msg, body, found=True)
         return
     problems = []
     if diffs:
@@ -1348,18 +1607,16 @@ def report(ctx, failing, diffs, broken, log, gen_ok, gen_log, exe, drv, layout_l
     if not problems:
         return
     # something broke without a failing input at hand: search for one (more programs, oracle only)
-    extra, cid = [], 100000
     srng = vlib.Splitmix(ctx.seed * 7919 + 17)
-    for _ in range(400 if not ctx.thorough else 3000):
-        line, _m = gen_case(srng, cid, False)
-        extra.append((cid, line))
-        cid += 1
-    f2, _, _ = evaluate(ctx, exe, drv, layout_line, L, extra, with_model=False)
+    extra, _m, xin, xh, _c = gen_inputs(srng, 100000, 400 if not ctx.thorough else 3000, False, with_keep=False)
+    f2, _, _ = evaluate(ctx, exe, drv, layout_line, L, extra, with_model=False, inputs=xin, hist=xh)
     if f2:
-        c, cl, msg, _ = f2[0]
-        ctx.violation("oracle", msg + "  (found by the search started after: " + "; ".join(problems) + ")",
-                      {"case": cl, "observed": msg, "expected": "see property C19", "level": "library",
-                       "all_failing": [(a, m) for a, _, m, _ in f2[:20]]}, found=True)
+        c, cl, msg, hl = f2[0]
+        body = {"case": cl, "observed": msg, "expected": "see property C19", "level": "library",
+                "all_failing": [(a, m) for a, _, m, _ in f2[:20]]}
+        if hl:
+            body["history"] = hl
+        ctx.violation("oracle", msg + "  (found by the search started after: " + "; ".join(problems) + ")", body, found=True)
         return
     if diffs:
         cid, cl, d = diffs[0]
@@ -1389,6 +1646,18 @@ def replay(ctx, path):
     L = parse_layout(layout_line)
     if "case" not in body:
         print("no case in the replay file (broken obligation):", body.get("what"))
+        return 0
+    if body.get("history"):
+        # a multi-session history: re-run all its sessions in one process, judge each
+        hl = body["history"]
+        sess = [x.strip() for x in hl.split(";;")[1:]]
+        blocks, err = run_harness(ctx, exe, [hl])
+        print("history:", hl.split(";;")[0].strip(), "(%d sessions in one process)" % len(sess))
+        for k, sl in enumerate(sess):
+            sid = sl.split()[1]
+            print("session %d (id %s): oracle: %s" % (k + 1, sid, oracle(sl, blocks.get(sid), L)))
+        if err.strip():
+            print("stderr:", err[-500:])
         return 0
     cl = renumber(body["case"], 0)
     blocks, err = run_harness(ctx, exe, [cl])
